@@ -119,6 +119,8 @@ class Gen(object):
         w(2, lambda: ([['take', r.randint(0, 3)]], t))
         w(1, lambda: ([['count', int(r.random() < 0.4)]], INT))
         w(1, lambda: ([['to_list']], LST if t == INT else ANY))
+        if t in (INT, FLT) and self.plain_ok:
+            w(1, lambda: ([['to_array', 'q' if t == INT else 'd']], ANY))
         w(1, lambda: ([['batch', r.randint(1, 3)]], LST if t == INT else ANY))
         w(1, lambda: ([[r.choice(['identity', 'do_action'])]], t))
         if not self.plain_ok:
@@ -216,7 +218,7 @@ def has_take(nodes):
 def completion_triggered(nodes):
     for n in nodes:
         k = n[0]
-        if k in ('last', 'to_list', 'batch'):
+        if k in ('last', 'to_list', 'batch', 'to_array'):
             return True
         if k == 'count' and n[1]:
             return True
